@@ -611,6 +611,11 @@ func c12Trace(t *testing.T, rep *Report) {
 		if rng.Intn(3) == 0 {
 			s = sps[1+rng.Intn(2)]
 		}
+		// the configured source may be any io.Reader: full reads, or short reads of 8 / 3 / 1 bytes
+		stream.mu.Lock()
+		stream.chunk = []int{0, 0, 8, 3, 1}[rng.Intn(5)]
+		chunk := stream.chunk
+		stream.mu.Unlock()
 		before := stream.offset()
 		var id string
 		var cerr error
@@ -619,13 +624,20 @@ func c12Trace(t *testing.T, rep *Report) {
 		}
 		after := stream.offset()
 		if cerr != nil || id == "" {
-			rep.Break("trace driver: %s failed: %v", call, cerr)
-			break
+			// the driver only performs valid calls: a message that cannot be created or recovered from its
+			// wire form in the middle of a sequence of creations is behaviour of the code, not of the driver
+			rep.Violation("C12:sequence:"+call+":not-recoverable",
+				fmt.Sprintf("message %d of a sequence of creations (%s) is not recoverable from the wire form it emits: %v", i+1, call, cerr),
+				map[string]any{"call": call, "position": i + 1, "error": fmt.Sprint(cerr)})
+			continue
 		}
 		ev := c12TraceEv{Kind: strings.SplitN(call, ":", 2)[0], Call: call, Before: before, After: after, ID: id,
 			Hex: id == "id-"+hex.EncodeToString(stream.bytes(before, after))}
 		if after-before < 16 {
 			short++
+			rep.Violation(fmt.Sprintf("C12:ids:short-draw:%s:chunk=%d", ev.Kind, chunk),
+				fmt.Sprintf("the ID of a %s was derived from only %d bytes (< 128 bits) drawn from the configured random source (source returning at most %d bytes per Read)", ev.Kind, after-before, chunk),
+				map[string]any{"event": ev, "reader_chunk": chunk})
 		}
 		if !ev.Hex {
 			notHex++
